@@ -15,7 +15,7 @@ RULE = ('pairs of real bilform calls related by (i) exchanging the two space int
         'by some rotation. distinct = distinct (curve, mesh, pair, relation, switch)')
 ASSUMPTIONS = ['L-shape: exchange and time shift only (no non-trivial symmetry is claimed)',
                'a time shift is used only if all four shifted end points are exact (Fraction equality), so that all four time differences are unchanged']
-REQUIRED = {t: ['rel:exchange', 'rel:time-shift', 'rel:rotation', 'rel:reflection', 'moved:interior->seam-touch', 'moved:onto-other-side',
+REQUIRED = {t: ['rel:exchange', 'rel:time-shift', 'rel:rotation', 'rel:reflection', 'moved:interior->seam-touch', 'moved:onto-other-side', 'pair:synthetic-coarse-fine',
                 'switch:exact', 'switch:quad', 'curve:UnitSquare', 'curve:PiSquare', 'curve:LShape', 'curve:Circle']
             for t in ('quick', 'thorough')}
 TIMEOUT = {'quick': 900, 'thorough': 5400}
@@ -134,6 +134,40 @@ def run_shard(spec, acc):
     pairs = [(i, j) for i in range(n) for j in range(n)]
     rng.shuffle(pairs)
     pairs = pairs[:spec['n_pairs']]
+    # synthetic leaves (as the estimators build them): a coarse panel (space level 1-3 of a side) and a fine one (level 4-8) close to it,
+    # possibly on the next side or across the seam, in thin time slabs - the pairs a mesh graded towards a corner over several
+    # slabs contains; appended to the element list so that they run through exactly the same relations
+    extra = []
+    for _ in range(spec['n_pairs'] // 2 if curve != 'LShape' else 0):
+        si = rng.randrange(ns)
+        lc, lf = rng.randint(0, 3), rng.randint(3, 8)
+        pc = [rng.randrange(2) for _ in range(lc)]
+        coarse = descend(sides[si], pc)
+        where = rng.choice(['same', 'next', 'next', 'prev']) if lc > 0 else rng.choice(['next', 'prev'])
+        sj = {'same': si, 'next': (si + 1) % ns, 'prev': (si - 1) % ns}[where]
+        off = rng.choice([0, 0, 1, 1, 2, 3])       # how many fine panels away from the common point
+        if where == 'same':
+            # in the sibling half of the coarse panel's parent, near the common point
+            pf = list(pc[:-1]) + [1 - pc[-1]] + [pc[-1]] * (lf - lc)
+        elif where == 'next':
+            pf = [(off >> (lf - 1 - q)) & 1 for q in range(lf)]
+        else:
+            idx = 2**lf - 1 - off
+            pf = [(idx >> (lf - 1 - q)) & 1 for q in range(lf)]
+        fine = descend(sides[sj], pf)
+        # thin time slabs (the property puts no aspect restriction on the symmetry: both twins go through the same rule)
+        ht = 2.0**-rng.randint(4, 12)
+        k0 = rng.randint(0, 3)
+        lag = rng.choice([0, 1, 2, 5])
+        tc = (k0 * ht, (k0 + 1) * ht)
+        tf = ((k0 + lag) * ht, (k0 + lag + 1) * ht)
+        for (tt_, xx_) in ((tf, fine), (tc, coarse)):
+            extra.append(dummy(tt_, xx_))
+        pairs.append((n + len(extra) - 2, n + len(extra) - 1))
+        if lag == 0:
+            pairs.append((n + len(extra) - 1, n + len(extra) - 2))
+        acc.seen('pair:synthetic-coarse-fine')
+    elems = elems + extra
     for i, j in pairs:
         test, trial = elems[i], elems[j]
         if test.time_interval[1] <= trial.time_interval[0]:
